@@ -34,7 +34,7 @@ def bkldlt (args : List String) : Option String := do
   | _ => none
 
 /-- single precision: the same model at `Float32` (bit patterns are `UInt32`) -/
-instance : Sc Float32 where
+instance instScFloat32C10 : Sc Float32 where
   abs := Float32.abs
   sqrt := Float32.sqrt
   pow := Float32.pow
